@@ -345,11 +345,14 @@ def reset_for(case):
   """Default settings, or - case['lists'] - USE_WHITELIST with a whitelist that admits every name and a blacklist
   that matches none, loaded from files the way the daemon loads them: the same datapoints are expected."""
   b = env.bootstrap()
+  extra = {}
+  if case.get('pickle_max_length'):
+    extra['PICKLE_RECEIVER_MAX_LENGTH'] = case['pickle_max_length']     # carbon.conf: the configured maximum frame length
   if not case.get('lists'):
-    env.reset()
+    env.reset(**extra)
     return b
   import os
-  env.reset(USE_WHITELIST=True)
+  env.reset(USE_WHITELIST=True, **extra)
   for lst, fname, text in ((b.regexlist.WhiteList, 'whitelist.conf', '# admit everything\n\n.*\n'),
                            (b.regexlist.BlackList, 'blacklist.conf', '^no-such-metric-ever$\n')):
     path = os.path.join(b.conf_dir, fname)
@@ -520,7 +523,52 @@ def execute(ctx, case):
     ctx.evaluations += 1
 
 
+def boundary_cases():
+  """Items exactly at and one byte over the maximum length: only the latter may close the connection."""
+  good1 = {'kind': 'good', 'hex': h(b'edge.before 1 100'), 'expected': [['edge.before', 100.0, 1.0]], 'cls': 'good'}
+  good2 = {'kind': 'good', 'hex': h(b'edge.after 2 200'), 'expected': [['edge.after', 200.0, 2.0]], 'cls': 'good'}
+  for over in (0, 1):
+    name = 'x' * (16384 + over - len(' 1 100'))
+    item = ({'kind': 'good', 'hex': h(('%s 1 100' % name).encode()), 'expected': [[name, 100.0, 1.0]], 'cls': 'line-at-max-length'}
+            if not over else {'kind': 'terminal', 'hex': h(('%s 1 100' % name).encode()), 'expected': [], 'cls': 'overlong-line'})
+    for cuts in ([], [5, 16000, 16396, 16403]):
+      yield {'listener': 'line', 'items': [good1, item, good2], 'cuts': cuts, 'lists': False}
+  g1 = [('edge.before', (100, 1.0))]
+  g2 = [('edge.after', (200, 2.0))]
+  # the operator raised the limit above the built-in default: a frame between the two is within the configured maximum
+  for limit, size in ((2 ** 21, 2 ** 20 + 100),):
+    name = 'z' * (size - 60)
+    payload = pickle.dumps([(name, (100, 1.0))], protocol=2)
+    yield {'listener': 'pickle', 'pickle_max_length': limit, 'lists': False, 'cuts': [3, 2 ** 20],
+           'items': [{'kind': 'good', 'hex': h(pkl.int32_frame(pickle.dumps(g1, protocol=2))), 'expected': [['edge.before', 100.0, 1.0]], 'cls': 'good'},
+                     {'kind': 'good', 'hex': h(pkl.int32_frame(payload)), 'expected': [[name, 100.0, 1.0]], 'cls': 'frame-above-default-limit'},
+                     {'kind': 'good', 'hex': h(pkl.int32_frame(pickle.dumps(g2, protocol=2))), 'expected': [['edge.after', 200.0, 2.0]], 'cls': 'good'}]}
+  for limit in (2048, 70000):
+    for over in (0, 1):
+      # a protocol-2 pickle of one datapoint whose name pads the payload to exactly limit (+1) bytes
+      base = len(pickle.dumps([('', (100, 1.0))], protocol=2))
+      name = 'y' * (limit + over - base - (3 if limit - base > 255 else 0))
+      payload = pickle.dumps([(name, (100, 1.0))], protocol=2)
+      if len(payload) != limit + over:
+        name = 'y' * (len(name) + (limit + over - len(payload)))
+        payload = pickle.dumps([(name, (100, 1.0))], protocol=2)
+      if len(payload) != limit + over:
+        continue
+      f1, f2 = pickle.dumps(g1, protocol=2), pickle.dumps(g2, protocol=2)
+      mid = ({'kind': 'good', 'hex': h(pkl.int32_frame(payload)), 'expected': [[name, 100.0, 1.0]], 'cls': 'frame-at-max-length'}
+             if not over else {'kind': 'terminal', 'hex': h(pkl.int32_frame(payload)), 'expected': [], 'cls': 'overlong-frame'})
+      yield {'listener': 'pickle', 'pickle_max_length': limit, 'lists': False, 'cuts': [2, 40, limit - 1],
+             'items': [{'kind': 'good', 'hex': h(pkl.int32_frame(f1)), 'expected': [['edge.before', 100.0, 1.0]], 'cls': 'good'}, mid,
+                       {'kind': 'good', 'hex': h(pkl.int32_frame(f2)), 'expected': [['edge.after', 200.0, 2.0]], 'cls': 'good'}]}
+
+
 def run(ctx):
+  if (ctx.shard or 0) == 0:
+    nb = 0
+    for case in boundary_cases():
+      execute(ctx, case)
+      nb += 1
+    ctx.extra['boundary_length_cases'] = nb
   n = ctx.scale(520, 4000)
   run_given(ctx, line_cases(), execute, n, salt=1)
   run_given(ctx, pickle_cases(), execute, n, salt=2)
